@@ -1,5 +1,7 @@
 from typing import Dict, Iterable, List, Set, Tuple
 
+from ordered_set import OrderedSet
+
 from . import Index, ModelsStructureType
 from .utils import ListEx, PositionsDict
 from ..dynamic_typing import BaseType, DOptional, ModelMeta, ModelPtr
@@ -32,7 +34,7 @@ def compose_models(models_map: Dict[str, ModelMeta]) -> ModelsStructureType:
                 raise Exception(f'Model {model.name} has no pointers')
             root_models.append(structure_hash_table[key])
         else:
-            parents = {ptr.parent.index for ptr in pointers}
+            parents = OrderedSet(ptr.parent.index for ptr in pointers)  # ordered: see next(iter(parents)) below
             struct = structure_hash_table[key]
             # Model is using by other models
             if has_root_pointers or len(parents) > 1 and len(struct["roots"]) > 1:
@@ -88,7 +90,7 @@ def compose_models_flat(models_map: Dict[Index, ModelMeta]) -> ModelsStructureTy
             top_level_models.add(key)
             positions.update_position("root", PositionsDict.INC)
         else:
-            parents = {ptr.parent.index for ptr in pointers}
+            parents = OrderedSet(ptr.parent.index for ptr in pointers)  # ordered: see next(iter(parents)) below
             struct = structure_hash_table[key]
             # Model is using by other models
             if has_root_pointers or len(parents) > 1 and len(struct["roots"]) >= 1:
